@@ -230,6 +230,10 @@ def build_cases(seed, tier):
     cases.append(CCase("TrR2", "fn f(deps: G<i32>, a: i32) -> i32 { unimplemented!() }", None, "regression"))
     cases.append(CCase("TrR3", "async fn f(deps: G<i32>, a: i32) -> i32 { unimplemented!() }", None, "regression"))
     cases.append(CCase("", "pub trait TqR4 { fn m(self, x: i32) -> i32; fn r(&self) -> i32; }", None, "regression"))
+    # F21: raw identifiers next to generated / function names
+    cases.append(CCase("TrR5", "fn rawy(_: &impl A, _: i32, r#arg0: i32) -> i32 { unimplemented!() }", None, "regression"))
+    cases.append(CCase("TrR6", "fn foo(_: &impl A, r#foo: i32) -> i32 { unimplemented!() }", None, "regression"))
+    cases.append(CCase("TrR7", "fn bar(_: &impl A, r#_arg1: i32, (_x, _y): (i32, i32), r#arg1: i32, r#bar: u8) -> i32 { unimplemented!() }", None, "regression"))
     # the compile-level witnesses of /verif/known_findings.json, always part of the probe
     kf = json.load(open(os.path.join(VERIF, "known_findings.json")))
     for f in kf["findings"]:
